@@ -174,7 +174,12 @@ def allowed_prefixes(op, before_tree):
         elif len(p) == 1:
             return '/changes/%d' % int(p[0])
 
-        return '/changes/%d/files/%d' % (int(p[0]), int(p[1]))
+        fi = int(p[1])
+
+        if fi < 0:
+            fi += len(before_tree['changes'][int(p[0])]['files'])
+
+        return '/changes/%d/files/%d' % (int(p[0]), fi)
 
     try:
         if name in ('set', 'tweak'):
@@ -198,7 +203,7 @@ def allowed_prefixes(op, before_tree):
         elif name == 'add_change':
             n = len(before_tree.get('changes', []))
             return ['/changes/%d' % n, '/changes/len']
-        elif name == 'add_file':
+        elif name in ('add_file', 'clone_file'):
             ci = int(op.get('change', 0))
             n = len(before_tree['changes'][ci]['files'])
             return ['/changes/%d/files/%d' % (ci, n),
@@ -507,6 +512,30 @@ def _do(world, st, op):
         attrs = argattrs(world, st, op.get('attrs', {}))
         node.add_file(**attrs)
         return {}
+    elif name == 'clone_file':
+        # a file section copied (copy.deepcopy, or a pickle round trip) from
+        # another tree and appended to a change of this one: afterwards the
+        # two trees share nothing
+        src = st.trees.get(op.get('from'))
+        node = resolve(src, op.get('path', [0, 0])) if src is not None \
+            else None
+        dst = resolve(tree, [op.get('change', 0)])
+
+        if node is None or dst is None or not hasattr(dst, 'files'):
+            return {'outcome': 'skip', 'skipped': 'no-node'}
+
+        if op.get('how') == 'pickle':
+            import pickle
+            clone = pickle.loads(pickle.dumps(node))
+        else:
+            clone = copy.deepcopy(node)
+
+        if snap_file(clone) != snap_file(node):
+            world.violate('C18.copy-differs', str(op.get('how', 'deepcopy')),
+                          {'op': op})
+
+        dst.files.append(clone)
+        return {'cloned': True}
     elif name == 'list_edit':
         # the public lists of changes / files edited in place (reordered,
         # entries dropped): the tree *is* what those lists hold
@@ -662,6 +691,19 @@ def _do(world, st, op):
                    'strip_nl': cur[:-1] if cur.endswith('\n') else cur + '\n',
                    'append_space': cur + ' ', 'swapcase': cur.swapcase(),
                    'prepend_bom': '\ufeff' + cur}.get(how)
+        elif isinstance(cur, bytes) and cur and how == 'swap_signs':
+            # another diff of exactly the same length: inserted lines become
+            # deleted ones and vice versa (file-header lines left alone)
+            ls = cur.split(b'\n')
+
+            for i, l in enumerate(ls):
+                if l[:1] in (b'+', b'-') and l[:3] not in (b'+++', b'---'):
+                    ls[i] = (b'-' if l[:1] == b'+' else b'+') + l[1:]
+
+            new = b'\n'.join(ls)
+
+            if new == cur:
+                new = None
         elif isinstance(cur, bytes) and cur:
             new = {'append_nl': cur + b'\n', 'append_crlf': cur + b'\r\n',
                    'strip_nl': cur[:-1] if cur.endswith(b'\n')
